@@ -18,7 +18,7 @@ ADDED = {
     'C16': ' One odd byte or multi-byte sequence at every position of plain runs of 8..33 bytes (UTF-8 text) and 26 bytes (names); every container kind at its nesting limit at the same time; every valid signature of the enumeration is walked with the public DBusSignatureIter API, which must rebuild it and name the grammar\'s single complete types.',
     'C17': ' Calls made and waited for inside dispatch callbacks (notify function, filter, object-path handler; dbus_connection_send_with_reply_and_block and send_with_reply + block; reply first in the queue or behind other messages). Thread bodies that make calls and send signals themselves while others block or dispatch: every serial non-zero and distinct, also across the 32-bit wrap.',
     'C18': ' A monitor that does not read while more than max_outgoing_bytes of matching traffic goes by is owed every message once it reads again.',
-    'C19': ' The same histories with activation through a <servicehelper> (helper exit statuses 0..9 and a signal).',
+    'C19': ' The same histories with activation through a <servicehelper> (helper exit statuses 0..9 and a signal), and with the start handed to systemd (--systemd-activation, SystemdService=): the harness plays systemd, which may be on the bus or appear late (it is then handed one ActivationRequest per pending activation), report ActivationFailure, or stay silent until the start timeout.',
     'C20': ' The older register entry points without DBusError are operations too; dbus_connection_get_object_path_data() is compared with the model for every path in every state.',
 }
 for pid, extra in ADDED.items():
